@@ -91,6 +91,9 @@ def complete (sim : Sim) (label : String) (i : Nat) (q : QD) (uninterrupted : Bo
 def event (sim : Sim) (ev : String) : Sim :=
   let p := ev.splitOn "@"
   match p with
+  | ["K"] =>
+    -- catch-up reload of the served RocksDB instance: a completed reload like any other
+    if sim.st.gen + 1 ≥ 4 then sim else { sim with st := step params sim.st .reload }
   | ["R"] =>
     -- the harness has `gens` databases: further reloads are ignored there, too
     if sim.st.gen + 1 ≥ 4 then sim else { sim with st := step params sim.st .reload }
